@@ -112,6 +112,10 @@ func newAuthorizer(kind string, log *callLog) runtime.Authorizer {
 			return oerr.New(409, "authz-denied-409")
 		case "deny401":
 			return oerr.New(401, "authz-denied-401")
+		case "deny400":
+			return oerr.New(400, "authz-denied-400")
+		case "deny599":
+			return oerr.New(599, "authz-denied-599")
 		case "denywrap":
 			return fmt.Errorf("policy check: %w", oerr.New(409, "authz-denied-409"))
 		}
